@@ -1,0 +1,9 @@
+//go:build verif
+
+// Contracts for the deductive verifier in /verif (comment-only; compiled only with -tags verif).
+package types
+
+// Header.Hash is keccak over the RLP of the header fields (crypto + reflection: outside the verifier's subset, T5).
+// It is assumed to be a function of the header's fields and of byte-slice contents only.
+//@ func (*Header).Hash   pure trusted
+//@   opt reads=Header,[]byte
